@@ -13,7 +13,8 @@
 (***************************************************************************)
 EXTENDS Integers, Sequences, FiniteSets, TLC
 
-CONSTANTS Keys, MaxTime
+CONSTANTS Keys, MaxTime,
+          Faults      \* TRUE: explore a panic of the expiration accessor inside the retain sweep (C18)
 VARIABLES buf, minExp, now, ents
 vars == <<buf, minExp, now, ents>>
 
@@ -73,12 +74,26 @@ DoQuery(mode, p, t) ==
         /\ buf' = c[1] /\ minExp' = c[2]
   /\ R!Query(t)
 
+\* C18: clear_expired calls ExpiredKey::expiration once per element inside Vec::retain.  If the
+\* j-th call panics, retain's drop guard keeps the elements it has not looked at yet: the buffer is
+\* the kept part of the first j-1 elements followed by the untouched rest; min_exp is written only
+\* after the sweep, so it keeps its old (lower) value.  (std's documented behaviour, an assumption.)
+SweepPanic(b, t, j) == Retain(SubSeq(b, 1, j - 1), t) \o SubSeq(b, j, Len(b))
+DoSweepPanic(t) ==
+  /\ Faults
+  /\ R!CanQuery(t)
+  /\ minExp <= t                              \* otherwise the sweep is skipped and nothing is called
+  /\ \E j \in 1..Len(buf) : buf' = SweepPanic(buf, t, j)
+  /\ minExp' = minExp
+  /\ R!Query(t)
+
 DoClear == buf' = <<>> /\ minExp' = MaxExp /\ R!Clear
 
 Next == \/ \E k \in Keys, e \in Exps, t \in Times : DoInsert(k, e, t)
         \/ \E p \in Probes, t \in Times : DoQuery("lt", p, t) \/ DoQuery("le", p, t) \/ DoQuery("get", p, t)
         \/ \E th \in Thetas, t \in Times : DoQuery("by", th, t)
         \/ DoClear
+        \/ \E t \in Times : DoSweepPanic(t)
 
 Spec == Init /\ [][Next]_vars
 View == <<buf, minExp, now>>
